@@ -115,25 +115,39 @@ theorem toU64_ok_iff (s : Bytes) (v : Nat) :
           cases left <;> simp [h, not_isDigit_43] <;> grind
       · simp [h43]; grind
 
-/-- `to_i64` after one arm of `to_i64_t`. -/
-theorem toI64Go_ok (data : Bytes) (sign : Int) (start : Nat) (v : Int) :
+/-- largest magnitude `to_i64_t` accepts for a sign: `2^63` for `-`, `2^63-1` otherwise. -/
+def signLimit (sign : Int) : Nat := if sign < 0 then I64_MIN_ABS else I64_MAX
+
+theorem signLimit_one : signLimit 1 = 2^63 - 1 := by simp [signLimit, I64_MAX]
+theorem signLimit_neg_one : signLimit (-1) = 2^63 := by simp [signLimit, I64_MIN_ABS]
+
+/-- `to_i64` after one arm of `to_i64_t` (`sign` is `1` or `-1`). -/
+theorem toI64Go_ok (data : Bytes) (sign : Int) (start : Nat) (v : Int) (hs : sign = 1 ∨ sign = -1) :
     requireEmpty (toI64Go data sign start) = .ok v ↔
-    ∃ n, toU64T2 data start = .ok (n, []) ∧ n ≤ I64_MAX ∧ v = sign * (n : Int) := by
-  unfold toI64Go requireEmpty
+    ∃ n, toU64T2 data start = .ok (n, []) ∧ n ≤ signLimit sign ∧ v = sign * (n : Int) := by
+  unfold toI64Go requireEmpty signLimit
   cases h : toU64T2 data start with
   | error e => simp
   | ok p =>
     obtain ⟨n, left⟩ := p
-    by_cases hn : n > I64_MAX
-    · simp [hn]; intro _ _ ; omega
-    · cases left <;> simp [hn] <;> grind
+    rcases hs with rfl | rfl
+    · simp only [show ¬ ((1 : Int) < 0) by decide, if_false]
+      by_cases hn : n > I64_MAX
+      · simp [hn]; intro _ _ ; omega
+      · cases left <;> simp [hn] <;> grind
+    · simp only [show ((-1 : Int) < 0) by decide, if_true]
+      by_cases hn : n > I64_MIN_ABS
+      · simp [hn]; intro _ _ ; omega
+      · cases left <;> simp [hn] <;> grind
 
 theorem toI64_ok_iff (s : Bytes) (v : Int) :
     toI64 s = .ok v ↔
-      ∃ c data n, s = c :: data ∧ n ≤ I64_MAX ∧
-        ((isDigit c = true ∧ toU64T2 data (digitVal c) = .ok (n, []) ∧ v = (n : Int)) ∨
-         (c = 45 ∧ toU64T2 data 0 = .ok (n, []) ∧ v = -(n : Int)) ∨
-         (c = 43 ∧ toU64T2 data 0 = .ok (n, []) ∧ v = (n : Int))) := by
+      ∃ c data n, s = c :: data ∧
+        ((isDigit c = true ∧ toU64T2 data (digitVal c) = .ok (n, []) ∧ n ≤ I64_MAX ∧ v = (n : Int)) ∨
+         (c = 45 ∧ toU64T2 data 0 = .ok (n, []) ∧ n ≤ I64_MIN_ABS ∧ v = -(n : Int)) ∨
+         (c = 43 ∧ toU64T2 data 0 = .ok (n, []) ∧ n ≤ I64_MAX ∧ v = (n : Int))) := by
+  have lpos : signLimit 1 = I64_MAX := by simp [signLimit]
+  have lneg : signLimit (-1) = I64_MIN_ABS := by simp [signLimit]
   cases s with
   | nil => simp [toI64, toI64T, requireEmpty]
   | cons c data =>
@@ -142,56 +156,57 @@ theorem toI64_ok_iff (s : Bytes) (v : Int) :
     · have h45 : c ≠ 45 := by rintro rfl; simp [not_isDigit_45] at hc
       have h43 : c ≠ 43 := by rintro rfl; simp [not_isDigit_43] at hc
       simp only [hc, if_true]
-      rw [toI64Go_ok]
+      rw [toI64Go_ok _ _ _ _ (Or.inl rfl), lpos]
       constructor
       · rintro ⟨n, h1, h2, h3⟩
-        exact ⟨c, data, n, ⟨rfl, rfl⟩, h2, Or.inl ⟨hc, h1, by simpa using h3⟩⟩
-      · rintro ⟨c', data', n, ⟨rfl, rfl⟩, h2, h | h | h⟩
-        · exact ⟨n, h.2.1, h2, by simpa using h.2.2⟩
+        exact ⟨c, data, n, ⟨rfl, rfl⟩, Or.inl ⟨hc, h1, h2, by simpa using h3⟩⟩
+      · rintro ⟨c', data', n, ⟨rfl, rfl⟩, h | h | h⟩
+        · exact ⟨n, h.2.1, h.2.2.1, by simpa using h.2.2.2⟩
         · exact absurd h.1 h45
         · exact absurd h.1 h43
     · simp only [hc, Bool.false_eq_true, if_false]
       by_cases h45 : c = 45
       · subst h45
         simp only [beq_self_eq_true, if_true]
-        rw [toI64Go_ok]
+        rw [toI64Go_ok _ _ _ _ (Or.inr rfl), lneg]
         constructor
         · rintro ⟨n, h1, h2, h3⟩
-          exact ⟨45, data, n, ⟨rfl, rfl⟩, h2, Or.inr (Or.inl ⟨rfl, h1, by simpa using h3⟩)⟩
-        · rintro ⟨c', data', n, ⟨rfl, rfl⟩, h2, h | h | h⟩
+          exact ⟨45, data, n, ⟨rfl, rfl⟩, Or.inr (Or.inl ⟨rfl, h1, h2, by simpa using h3⟩)⟩
+        · rintro ⟨c', data', n, ⟨rfl, rfl⟩, h | h | h⟩
           · exact absurd h.1 hc
-          · exact ⟨n, h.2.1, h2, by simpa using h.2.2⟩
+          · exact ⟨n, h.2.1, h.2.2.1, by simpa using h.2.2.2⟩
           · exact absurd h.1 (by decide)
       · by_cases h43 : c = 43
         · subst h43
           simp only [show ((43 : UInt8) == 45) = false by decide, beq_self_eq_true, if_true, Bool.false_eq_true, if_false]
-          rw [toI64Go_ok]
+          rw [toI64Go_ok _ _ _ _ (Or.inl rfl), lpos]
           constructor
           · rintro ⟨n, h1, h2, h3⟩
-            exact ⟨43, data, n, ⟨rfl, rfl⟩, h2, Or.inr (Or.inr ⟨rfl, h1, by simpa using h3⟩)⟩
-          · rintro ⟨c', data', n, ⟨rfl, rfl⟩, h2, h | h | h⟩
+            exact ⟨43, data, n, ⟨rfl, rfl⟩, Or.inr (Or.inr ⟨rfl, h1, h2, by simpa using h3⟩)⟩
+          · rintro ⟨c', data', n, ⟨rfl, rfl⟩, h | h | h⟩
             · exact absurd h.1 hc
             · exact absurd h.1 (by decide)
-            · exact ⟨n, h.2.1, h2, by simpa using h.2.2⟩
+            · exact ⟨n, h.2.1, h.2.2.1, by simpa using h.2.2.2⟩
         · have e45 : (c == 45) = false := by simpa using h45
           have e43 : (c == 43) = false := by simpa using h43
           simp only [e45, e43, Bool.false_eq_true, if_false]
           constructor
           · intro h; simp [requireEmpty] at h
-          · rintro ⟨c', data', n, ⟨rfl, rfl⟩, h2, h | h | h⟩
+          · rintro ⟨c', data', n, ⟨rfl, rfl⟩, h | h | h⟩
             · exact absurd h.1 hc
             · exact absurd h.1 h45
             · exact absurd h.1 h43
 
-/-- digits whose value exceeds `i64::MAX` make every arm of `to_i64_t` fail with `Overflow`
-(either inside the u64 accumulator or at `i64::try_from`). -/
+/-- digits whose value exceeds the limit of the sign make the arm of `to_i64_t` fail with
+`Overflow` (either inside the u64 accumulator or at the checked conversion). -/
 theorem toI64Go_overflow (data : Bytes) (sign : Int) (start : Nat) (hd : allDigits data = true)
-    (hs : start ≤ U64_MAX) (h : decFrom data start > I64_MAX) :
+    (hs : start ≤ U64_MAX) (h : decFrom data start > signLimit sign) :
     requireEmpty (toI64Go data sign start) = .error .overflow := by
   unfold toI64Go requireEmpty
+  unfold signLimit at h
   rw [toU64T2_allDigits data start hd hs]
   by_cases h1 : decFrom data start ≤ U64_MAX
-  · simp [h1, h]
+  · by_cases hsg : sign < 0 <;> simp [hsg] at h <;> simp [h1, h, hsg]
   · simp [h1]
 
 theorem decFrom_append (a b : Bytes) (acc : Nat) : decFrom (a ++ b) acc = decFrom b (decFrom a acc) := by
@@ -816,6 +831,168 @@ theorem toF64_big_integer_refused (neg : Bool) (hd ip : Bytes) (hh : IsF64Head h
         · simp only [List.cons.injEq] at h; rw [h.1]; decide
       simp only [Bool.false_eq_true, if_false, List.nil_append, toF64, hc]
       exact f64Body_int_refuse false c data ip hh hbig
+
+
+/-- raising the exponent by one halves the scaled quotient (floor of floor). -/
+theorem scaleQ_succ (num den : Nat) (e : Int) :
+    (scaleQ num den (e + 1)).1 = (scaleQ num den e).1 / 2 := by
+  unfold scaleQ
+  by_cases he : e ≥ 0
+  · have he1 : e + 1 ≥ 0 := by omega
+    have ht : (e + 1).toNat = e.toNat + 1 := by omega
+    simp only [he, he1, if_true, ht, Nat.pow_succ, ← Nat.mul_assoc]
+    rw [Nat.div_div_eq_div_mul]
+  · by_cases he1 : e + 1 ≥ 0
+    · have e_eq : e = -1 := by omega
+      subst e_eq
+      simp only [he, if_false]
+      simp
+      rw [Nat.mul_comm num 2, Nat.div_div_eq_div_mul, Nat.mul_comm den 2, Nat.mul_div_mul_left _ _ (by decide : 0 < 2)]
+    · have ht : (-e).toNat = (-(e + 1)).toNat + 1 := by omega
+      simp only [he, he1, if_false, ht, Nat.pow_succ, ← Nat.mul_assoc]
+      rw [Nat.div_div_eq_div_mul, Nat.mul_comm den 2, Nat.mul_comm _ 2, Nat.mul_div_mul_left _ _ (by decide : 0 < 2)]
+
+/-- the first-guess quotient is below `2^54`. -/
+theorem scaleQ_e0_lt (num den : Nat) (hn : num ≠ 0) (hd : den ≠ 0) :
+    (scaleQ num den ((bitLen num : Int) - (bitLen den : Int) - 53)).1 < 2 ^ 54 := by
+  obtain ⟨-, hnum⟩ := bitLen_bounds num hn
+  obtain ⟨hden, -⟩ := bitLen_bounds den hd
+  have hLd : 1 ≤ bitLen den := by simp [bitLen, hd]
+  have hdpos : 0 < den := Nat.pos_of_ne_zero hd
+  unfold scaleQ
+  by_cases he : (bitLen num : Int) - (bitLen den : Int) - 53 ≥ 0
+  · simp only [he, if_true]
+    generalize ht : ((bitLen num : Int) - (bitLen den : Int) - 53).toNat = t
+    have hLn : bitLen num = bitLen den + 53 + t := by omega
+    rw [Nat.div_lt_iff_lt_mul (Nat.mul_pos hdpos (Nat.two_pow_pos t))]
+    calc num < 2 ^ bitLen num := hnum
+      _ = 2 ^ 54 * (2 ^ (bitLen den - 1) * 2 ^ t) := by
+          rw [← Nat.pow_add, ← Nat.pow_add]; congr 1; omega
+      _ ≤ 2 ^ 54 * (den * 2 ^ t) := Nat.mul_le_mul_left _ (Nat.mul_le_mul_right _ hden)
+  · simp only [he, if_false]
+    generalize ht : (-((bitLen num : Int) - (bitLen den : Int) - 53)).toNat = t
+    have hLn : bitLen num + t = bitLen den + 53 := by omega
+    rw [Nat.div_lt_iff_lt_mul hdpos]
+    calc num * 2 ^ t < 2 ^ bitLen num * 2 ^ t := Nat.mul_lt_mul_of_pos_right hnum (Nat.two_pow_pos t)
+      _ = 2 ^ 54 * 2 ^ (bitLen den - 1) := by
+          rw [← Nat.pow_add, ← Nat.pow_add]; congr 1; omega
+      _ ≤ 2 ^ 54 * den := Nat.mul_le_mul_left _ hden
+
+
+theorem roundQ_le (q r d : Nat) : roundQ q r d ≤ q + 1 := by
+  unfold roundQ; split <;> (try split) <;> (try split) <;> omega
+
+theorem packBits_lt (q : Nat) (e : Int) (K : Nat) (hq : q ≤ 2 ^ 53) (hK : e + 1 + 1075 ≤ K) (hK2 : K ≤ 2046) :
+    packBits q e < (K + 1) * 2 ^ 52 := by
+  unfold packBits
+  by_cases h1 : q ≥ 2 ^ 53
+  · have hq' : q / 2 = 2 ^ 52 := by omega
+    simp only [h1, if_true, hq']
+    have c2 : ¬ (2 ^ 52 < 2 ^ 52) := by omega
+    have c3 : ¬ (e + 1 + 1075 ≥ 2047) := by omega
+    simp only [c2, c3, if_false]
+    have : (e + 1 + 1075).toNat ≤ K := by omega
+    omega
+  · simp only [h1, if_false]
+    by_cases h2 : q < 2 ^ 52
+    · simp only [h2, if_true]; omega
+    · have c3 : ¬ (e + 1075 ≥ 2047) := by omega
+      simp only [h2, c3, if_false]
+      have : (e + 1075).toNat ≤ K := by omega
+      omega
+
+/-- after `normExp` the quotient fits 53 bits, and the exponent moved by at most one. -/
+theorem normExp_spec (num den : Nat) (e0 : Int) (h : (scaleQ num den e0).1 < 2 ^ 54) :
+    (scaleQ num den (normExp (scaleQ num den e0).1 e0)).1 < 2 ^ 53 ∧
+    normExp (scaleQ num den e0).1 e0 ≤ e0 + 1 ∧ e0 - 1 ≤ normExp (scaleQ num den e0).1 e0 := by
+  unfold normExp
+  by_cases h1 : (scaleQ num den e0).1 ≥ 2 ^ 53
+  · simp only [h1, if_true]
+    refine ⟨?_, by omega, by omega⟩
+    rw [scaleQ_succ]; omega
+  · simp only [h1, if_false]
+    by_cases h2 : (scaleQ num den e0).1 < 2 ^ 52
+    · simp only [h2, if_true]
+      refine ⟨?_, by omega, by omega⟩
+      have := scaleQ_succ num den (e0 - 1)
+      rw [show e0 - 1 + 1 = e0 by omega] at this
+      omega
+    · simp only [h2, if_false]
+      exact ⟨by omega, by omega, by omega⟩
+
+/-- **bound on the exponent field of a rounded quotient**: with `K` at least the first-guess
+exponent plus 2 (biased), and `K ≤ 2046`, the bit pattern is below `(K+1)·2^52`; in
+particular it is finite. -/
+theorem rneBits_lt (num den K : Nat) (hd : den ≠ 0) (hLd : bitLen den ≤ 1000)
+    (hK : (bitLen num : Int) - (bitLen den : Int) - 53 + 2 + 1075 ≤ K) (hK2 : K ≤ 2046) :
+    rneBits num den < (K + 1) * 2 ^ 52 := by
+  by_cases hn : num = 0
+  · subst hn; simp [rneBits]
+  · unfold rneBits
+    have hnd : ¬ (num = 0 ∨ den = 0) := by simp [hn, hd]
+    simp only [hnd, if_false]
+    have hLn : 1 ≤ bitLen num := by simp [bitLen, hn]
+    generalize he0 : (bitLen num : Int) - (bitLen den : Int) - 53 = e0 at *
+    obtain ⟨hq, hup, hlo⟩ := normExp_spec num den e0 (he0 ▸ scaleQ_e0_lt num den hn hd)
+    generalize normExp (scaleQ num den e0).1 e0 = e1 at *
+    have hcl : clampExp e1 = e1 := by
+      unfold clampExp; have : ¬ e1 < -1074 := by omega
+      simp [this]
+    rw [hcl]
+    have hr := roundQ_le (scaleQ num den e1).1 (scaleQ num den e1).2.1 (scaleQ num den e1).2.2
+    exact packBits_lt _ e1 K (by omega) (by omega) hK2
+
+
+theorem bitLen_le (n m : Nat) (h : n < 2 ^ m) : bitLen n ≤ m := by
+  by_cases hn : n = 0
+  · simp [bitLen, hn]
+  · obtain ⟨hlo, -⟩ := bitLen_bounds n hn
+    by_cases hc : bitLen n ≤ m
+    · exact hc
+    · exfalso
+      have : 2 ^ m ≤ 2 ^ (bitLen n - 1) := Nat.pow_le_pow_right (by decide) (by omega)
+      omega
+
+theorem decodeMag_lt (fi : Nat) (h : fi < 1088 * 2 ^ 52) : decodeMag fi < 2 ^ 65 := by
+  unfold decodeMag
+  by_cases h0 : fi = 0
+  · simp [h0]
+  · simp only [h0, if_false]
+    have hbe : fi / 2 ^ 52 ≤ 1087 := by omega
+    have hm : fi % 2 ^ 52 + 2 ^ 52 < 2 ^ 53 := by omega
+    by_cases hge : fi / 2 ^ 52 ≥ 1075
+    · simp only [hge, if_true]
+      have hp : 2 ^ (fi / 2 ^ 52 - 1075) ≤ 2 ^ 12 := Nat.pow_le_pow_right (by decide) (by omega)
+      calc (fi % 2 ^ 52 + 2 ^ 52) * 2 ^ (fi / 2 ^ 52 - 1075)
+          ≤ (fi % 2 ^ 52 + 2 ^ 52) * 2 ^ 12 := Nat.mul_le_mul_left _ hp
+        _ < 2 ^ 53 * 2 ^ 12 := Nat.mul_lt_mul_of_pos_right hm (Nat.two_pow_pos 12)
+        _ = 2 ^ 65 := by rw [← Nat.pow_add]
+    · simp only [hge, if_false]
+      exact Nat.lt_of_le_of_lt (Nat.div_le_self _ _) (by omega)
+
+/-- the magnitude `to_f64` computes for a decimal (`(i as f64) / 10^k`, `i` a `u64`,
+`k ≤ 22`) has an exponent field of at most 1088: it is finite. -/
+theorem frac_mag_lt (i k : Nat) (hi : i ≤ U64_MAX) (hk : k ≤ 22) :
+    rneBits (decodeMag (u64ToF64 i)) (10 ^ k) < 1089 * 2 ^ 52 := by
+  have hfi : u64ToF64 i < 1088 * 2 ^ 52 := by
+    unfold u64ToF64
+    have hb : bitLen i ≤ 64 := bitLen_le i 64 (by simp only [U64_MAX] at hi; omega)
+    exact rneBits_lt i 1 1087 (by decide) (by rw [bitLen_one]; omega) (by rw [bitLen_one]; omega) (by omega)
+  have hnum := bitLen_le _ 65 (decodeMag_lt _ hfi)
+  have hden0 : 10 ^ k ≠ 0 := Nat.pos_iff_ne_zero.mp (Nat.pow_pos (by decide))
+  have hden1 : 1 ≤ bitLen (10 ^ k) := by unfold bitLen; rw [if_neg hden0]; omega
+  have hden74 : bitLen (10 ^ k) ≤ 74 := by
+    apply bitLen_le
+    calc 10 ^ k ≤ 10 ^ 22 := Nat.pow_le_pow_right (by decide) hk
+      _ < 2 ^ 74 := by decide
+  exact rneBits_lt _ _ 1088 hden0 (by omega) (by omega) (by omega)
+
+theorem expField_fracVal (neg : Bool) (i k : Nat) (hi : i ≤ U64_MAX) (hk : k ≤ 22) :
+    expField (fracVal neg i k) ≤ 1088 := by
+  have := frac_mag_lt i k hi hk
+  unfold fracVal
+  generalize rneBits (decodeMag (u64ToF64 i)) (10 ^ k) = q at *
+  cases neg <;> simp only [expField, signBit, Bool.false_eq_true, if_false, if_true] <;> omega
 
 
 end Jomini.Scalar
